@@ -249,3 +249,79 @@ func H_c02_html() {
 }
 
 func init() { reg("H_c02_html", H_c02_html) }
+
+// ---------------------------------------------------------------------------------------------
+// C02 part A'''': which list items may interrupt a paragraph (CommonMark 5.2/5.3): a non-empty bullet
+// item may; an ordered item only when its start number is 1 - however it is spelled (01., 001)) -;
+// an empty item never. Layout: "para" / marker [content]. Marker spelling enumerated (leading zeros,
+// value 1 or 2), delimiter and bullet character symbolic.
+// ---------------------------------------------------------------------------------------------
+
+func H_c02_interrupt() {
+	m := WarmMD("core||unsafe,xhtml")
+	kind := vp.ParamInt("kind", 0) // 0 ordered, 1 bullet
+	zeros := vp.ParamInt("zeros", 0)
+	val := vp.ParamInt("val", 1)
+	empty := vp.ParamInt("empty", 0) == 1
+	ind := vp.ParamInt("ind", 0)
+	letter := func() byte {
+		b := vp.Byte("t")
+		vp.Assume(vp.InRange(b, 'a', 'z'))
+		return b
+	}
+	p1, p2, c := letter(), letter(), letter()
+	var marker []byte
+	if kind == 0 {
+		for i := 0; i < zeros; i++ {
+			marker = append(marker, '0')
+		}
+		d := vp.Byte("odelim")
+		vp.Assume(vp.InSet(d, ".)"))
+		marker = append(marker, byte('0'+val), d)
+	} else {
+		b := vp.Byte("bullet")
+		vp.Assume(vp.InSet(b, "*+"))
+		marker = append(marker, b)
+	}
+	md := []byte{p1, p2, '\n'}
+	for i := 0; i < ind; i++ {
+		md = append(md, ' ')
+	}
+	md = append(md, marker...)
+	if !empty {
+		md = append(md, ' ', c)
+	}
+	md = append(md, '\n')
+	interrupts := !empty && (kind == 1 || val == 1)
+	var want []byte
+	if interrupts {
+		want = append(want, '<', 'p', '>', p1, p2)
+		want = append(want, "</p>\n"...)
+		if kind == 0 {
+			want = append(want, "<ol>\n<li>"...)
+			want = append(want, c)
+			want = append(want, "</li>\n</ol>\n"...)
+		} else {
+			want = append(want, "<ul>\n<li>"...)
+			want = append(want, c)
+			want = append(want, "</li>\n</ul>\n"...)
+		}
+	} else {
+		want = append(want, '<', 'p', '>', p1, p2, '\n')
+		want = append(want, marker...)
+		if !empty {
+			want = append(want, ' ', c)
+		}
+		want = append(want, "</p>\n"...)
+	}
+	vp.Observe("src", md)
+	vp.Observe("want", want)
+	var o bytes.Buffer
+	e := m.Convert(md, &o)
+	vp.Assert(e == nil, "conversion returned an error")
+	vp.Observe("got", o.Bytes())
+	vp.Assert(vp.EqBytes(normHTML(o.Bytes()), normHTML(want)), "list item interrupting a paragraph: not what CommonMark 5.2/5.3 prescribes")
+	vp.Reach("done")
+}
+
+func init() { reg("H_c02_interrupt", H_c02_interrupt) }
